@@ -391,7 +391,7 @@ func main() {
 		bulk := bulks[rnd.Intn(len(bulks))]
 		base := build(ctx, prefix)
 		if s.Kind == "construct" || (s.Kind == "select" && s.Note != "") {
-			s.Q = g.Query(ctx, base, s.Ins, s.WB, s.Note)
+			s.Q = g.QueryHaving(ctx, base, s.Ins, s.WB, s.Note, s.Hav)
 		} else if s.Kind == "select" {
 			r := Execute(ctx, base, s.Text, bulk)
 			s.Q = &VQ{Ok: r.Class == "ok", Rows: []map[string]*VCell{}}
